@@ -297,7 +297,7 @@ func run(raw json.RawMessage) driver.Result {
 		str := flaghelper.NewStringSliceFlag(&l).String()
 		out := guard(func() string { r, err := parse.StringSlice(str); return outcome(coqfmt.Strs(r), err) })
 		return driver.Result{
-			Coq: fmt.Sprintf("SliceRT %s %s %s %s", textgen.Printable(in.L...), coqfmt.Strs(in.L), coqfmt.Str(str), out),
+			Coq:  fmt.Sprintf("SliceRT %s %s %s %s", textgen.Printable(in.L...), coqfmt.Strs(in.L), coqfmt.Str(str), out),
 			Kind: "slice-roundtrip", Nontrivial: len(in.L) >= 2 && textgen.Special(in.L...),
 			Tags: []string{sizeTag("slice", len(in.L))},
 		}
@@ -309,7 +309,7 @@ func run(raw json.RawMessage) driver.Result {
 		str := flaghelper.NewStringSetFlag(&m).String()
 		out := guard(func() string { r, err := parse.StringSet(str); return outcome(setList(r), err) })
 		return driver.Result{
-			Coq: fmt.Sprintf("SetRT %s %s %s %s", textgen.Printable(in.L...), coqfmt.Strs(in.L), coqfmt.Str(str), out),
+			Coq:  fmt.Sprintf("SetRT %s %s %s %s", textgen.Printable(in.L...), coqfmt.Strs(in.L), coqfmt.Str(str), out),
 			Kind: "set-roundtrip", Nontrivial: len(in.L) >= 2 && textgen.Special(in.L...),
 			Tags: []string{sizeTag("set", len(in.L))},
 		}
@@ -335,7 +335,7 @@ func run(raw json.RawMessage) driver.Result {
 			tags = append(tags, "map-empty-key")
 		}
 		return driver.Result{
-			Coq: fmt.Sprintf("MapRT %s %s %s %s", textgen.Printable(all...), coqfmt.List(parts), coqfmt.Str(str), out),
+			Coq:  fmt.Sprintf("MapRT %s %s %s %s", textgen.Printable(all...), coqfmt.List(parts), coqfmt.Str(str), out),
 			Kind: "map-roundtrip", Nontrivial: len(in.M) >= 2 && textgen.Special(all...), Tags: tags,
 		}
 	case "mss":
@@ -356,7 +356,7 @@ func run(raw json.RawMessage) driver.Result {
 		str := flaghelper.NewMapStringStringSliceFlag(&m).String()
 		out := guard(func() string { r, err := parse.StringStringSliceMap(str); return outcome(mssList(r), err) })
 		return driver.Result{
-			Coq: fmt.Sprintf("MssRT %s %s %s %s", textgen.Printable(all...), coqfmt.List(parts), coqfmt.Str(str), out),
+			Coq:  fmt.Sprintf("MssRT %s %s %s %s", textgen.Printable(all...), coqfmt.List(parts), coqfmt.Str(str), out),
 			Kind: "mss-roundtrip", Nontrivial: len(in.MM) >= 2 && textgen.Special(all...), Tags: tags,
 		}
 	case "ty":
